@@ -175,8 +175,12 @@ class LibDriver:
         ref = self.ref
         n = len(ref)
         try:
-            ln = self._len()
-            items = self._itemize()
+            if rng.random() < 0.5:          # (the first thing asked at a look is the length, or the itemised list)
+                ln = self._len()
+                items = self._itemize()
+            else:
+                items = self._itemize()
+                ln = self._len()
         except Exception as e:  # noqa
             raise CaseViolation(f'{self.label}: a library operation broke: {type(e).__name__}({e})', accepted=ref[:30])
         ctx.ev()
@@ -244,3 +248,8 @@ class LibDriver:
                 raise CaseViolation(f'{self.label}: lookup of unknown name {u!r} raised {type(e).__name__} instead of {want.__name__}')
             else:
                 raise CaseViolation(f'{self.label}: lookup of unknown name {u!r} returned {r!r:.60}')
+        # the last question of the look is a random one (or none)
+        try:
+            rng.choice([self._len, self._itemize, lambda: self._by_id(0), lambda: None])()
+        except Exception as e:  # noqa
+            raise CaseViolation(f'{self.label}: a library operation broke: {type(e).__name__}({e})', accepted=ref[:30])
